@@ -26,6 +26,8 @@ import (
 // ErrInjected is the error returned by "error" faults.
 var ErrInjected = errors.New("memstore: injected storage failure")
 
+var errInjectedPanic = errors.New("memstore: injected panic (error value)")
+
 type series struct {
 	lset    labels.Labels // handed out as-is on every call (shared backing array)
 	mu      sync.Mutex
@@ -270,6 +272,12 @@ func (s *Session) hit(class string, ctx context.Context) faultAction {
 	case "panic":
 		var a []int
 		_ = a[fire.K+1] // a genuine runtime.Error
+	case "panicstr":
+		// a panic whose value is not an error (storages do panic("..."))
+		panic(fmt.Sprintf("memstore: injected panic at callback %d", fire.K))
+	case "panicerr":
+		// a panic whose value is an error, but not a runtime.Error
+		panic(errInjectedPanic)
 	case "error":
 		return actError
 	case "cancel", "cancelquery", "cancelslow":
@@ -280,7 +288,7 @@ func (s *Session) hit(class string, ctx context.Context) faultAction {
 			// a storage that takes a while to come back after the cancellation
 			time.Sleep(3 * time.Millisecond)
 		}
-	case "block", "blockdl":
+	case "block", "blockdl", "blockq", "blockclose":
 		if ctx != nil {
 			<-ctx.Done()
 		}
